@@ -522,6 +522,17 @@ pub fn c04(out: &mut Vec<String>, rng: &mut Rng, tier: &str) {
             out.push(unpaired_case::<f64>("C04", rand_conf(rng), &xs, &ys));
         }
     }
+    // finite observations whose squares overflow the data type: the documented outcome is InvalidInputData
+    for (m32, m64) in [(3e19f64, 2e154f64), (1e30, 1e200)] {
+        let xs: Vec<f64> = vec![1.0, 2.5, -0.5, 4.0];
+        let big: Vec<f64> = vec![0.75, 1.5, 2.0];
+        for which in 0..2 {
+            let (a64, b64): (Vec<f64>, Vec<f64>) = if which == 0 { (xs.iter().map(|x| x * m64).collect(), big.clone()) } else { (big.clone(), xs.iter().map(|x| x * m64).collect()) };
+            out.push(unpaired_case::<f64>("C04", rand_conf(rng), &a64, &b64));
+            let (a32, b32): (Vec<f32>, Vec<f32>) = if which == 0 { (xs.iter().map(|x| (x * m32) as f32).collect(), big.iter().map(|x| *x as f32).collect()) } else { (big.iter().map(|x| *x as f32).collect(), xs.iter().map(|x| (x * m32) as f32).collect()) };
+            out.push(unpaired_case::<f32>("C04", rand_conf(rng), &a32, &b32));
+        }
+    }
     // exactly equal sample means (a sample against a permutation of itself, integer data of equal mean, constants)
     for n in [2usize, 3, 7, 12] {
         let xs: Vec<f64> = (0..n).map(|_| rng.range(-9, 9) as f64).collect();
